@@ -762,9 +762,15 @@ func plans(thorough bool) []plan {
 func TestCheck(t *testing.T) {
 	vfw.Main(t, "C20", func(c *vfw.Ctx) {
 		c.Level("model_checking")
+		c.Rule("session-id validation (E2): roles x validation {on, off} x every sequence of 1..2 inbound data frames over {own session W, foreign session W, foreign session no-W, session 0}: after every frame DataMsgRecvCount == well-formed data frames the peer has sent on the Selected link, DataMsgSendCount == data frames the peer has received (the S9F1 answers), gauge 0")
 		c.Rule("E2 tree search: real hsmsss connection (passive/active x host/equipment; T3 3 s, backoff 100 ms flat, write timeout 500 ms) brought to Selected, then EVERY history of length <= 3 over the full alphabet and <= 4 over 14 symbols (thorough: <= 4 full alphabet (two role combinations; the other two over 14 symbols), <= 5 over 12 symbols, <= 6 over two 8-symbol alphabets) with at most 3 sends over {start a send through SendDataMessage W / SendDataMessage no-W / SendDataMessageAsync / ReplyDataMessage / ForwardDataMessage; write error by peer stall + write deadline (W, async, forward) or by peer stall + reset under a blocked write (no-W, reply); peer reply / Reject.req / caller-ctx cancel for the oldest waiting send; 3.01 s pass (T3); peer drop; reconnect (re-dial after backoff or harness connect, select); network refuses dials (active); peer Deselect.req / Select.req; inbound data primary; PType-1 frame; data frame with a non-SECS-II body; a third party connecting to the passive port while the link is up (refused; nothing changes); Close()} (nothing follows Close; an implicit Close ends every history). At EVERY quiescent point (synctest.Wait after each event): DataMsgInflightCount() >= 0 and == number of reply-expected sends whose primary is on the wire and that still wait; DataMsgSendCount() == data frames the scripted peer has received over all TCP generations == sum of the documented per-outcome deltas; DataMsgRecvCount() == well-formed data frames the peer sent while the reference responder is Selected; DataMsgErrCount / DataMsgDropNotSelectedCount / AsyncSendErrCount == sums of the documented vectors (reply: send+1; peer reject: send+1, no error counter; T3: send+1, err+1, equipment role S9F9 = one more data send (or one not-selected drop when deselected); disconnect / cancel while waiting: send+1 only; refused: drop+1 only; write error: err+1 only, async paths AsyncSendErr+1 only); every call returned the class of its outcome; Reconnecting() >= 0, > 0 from a drop until the next successful dial/listen of the backoff schedule, 0 otherwise (Selected, closed); Reconnects() == successful re-dials (active). state = history prefix, non-trivial = history length >= 1")
 		c.Assume("testing/synctest virtual time and durable-blocking detection", "sim in-memory network", "reference ledger written from the doc comments of hsms.ConnectionMetrics (DataMsgErrCount is read as: a write error of any synchronous entry point counts — the library's own test pins this for ForwardDataMessage — and an async-path failure counts only in AsyncSendErrCount)", "a data frame with an undecodable body is a received data message (BodyDecodeErrCount doc: counted by DataMsgRecvCount first)", "at most one goroutine wants the write lock while the peer stalls (a goroutine blocked on a sync.Mutex is not durably blocked in a bubble)", "reconnect attempts every 100 ms after a drop (multiplier 1.0); the reference's attempt count is cross-checked against the network's dial/listen log")
 		if c.Replay != nil {
+			var vc validCase
+			if err := json.Unmarshal(c.Replay, &vc); err == nil && vc.Valid {
+				oneValid(c, t, vc)
+				return
+			}
 			var rc replayCase
 			if err := json.Unmarshal(c.Replay, &rc); err != nil {
 				c.HarnessError("bad replay: %v", err)
@@ -777,6 +783,7 @@ func TestCheck(t *testing.T) {
 			}
 			return
 		}
+		partValid(c, t)
 		partE2(c, t)
 		partSched(c, t)
 	})
